@@ -219,6 +219,8 @@ def opLC (st : St) (head pathToks argToks outToks : List String) : String :=
     | some n, some v, some f, some (p, _), some impl =>
       if mutF == "1" then "dev-viol read-operation-modified-its-argument" else
       let isCap := fn == "cap"
+      -- hypotheses of C10.lc_correct, evaluated on every input
+      if !(HascOK n && FieldsDistinct n) then "dev-ok hypothesis HascOK/FieldsDistinct of lc_correct does not hold for this type tree" else
       let okOf (o : LcOut) : Bool :=
         match rootOf f with
         | .ok => lcAccepts isCap n v p o
@@ -591,6 +593,35 @@ def opLoop (st : St) (parts : List (List String)) : String :=
        | some gs =>
          let ftext := ftextOf gs
          let isMap := loopsMap n v p
+         -- hypothesis of C09.loop_correct on the keys (strconv round trip of the rendered key text, no nil
+         -- pointer key / byte key where the key is asked for), evaluated with the oracle the record carries
+         -- keys that were never handed to the iterator (Break, map order, a skipped root map) carry no
+         -- annotation in the record: for those the round trip is taken as given; for every observed key it is
+         -- evaluated on what the real strconv answered
+         let mapKeys : List (Node × Val) := match loopTarget n v p with
+           | .coll (.map _ k _) (.map _ ks _) => ks.map fun key => (k, key)
+           | _ => []
+         let observed (t : Bytes) : Bool := gs.any fun g => match g.key with | some s => s.text == t | none => false
+         -- float texts come from the record too: an unobserved float key gets a synthetic, injective text
+         let ftextH (w : Val) : Bytes :=
+           match w with
+           | .float fx => let t := ftext w; if observed t then t else strBytes ("#f" ++ toString fx)
+           | _ => ftext w
+         let synth (t : Bytes) : Option Seg :=
+           mapKeys.findSome? fun (k, key) =>
+             if renderKey k key ftextH == some t then
+               (match key.strip with
+                | .bool b => some { text := t, pb := some b }
+                | .int i => some { text := t, pi := some i }
+                | .uint u => some { text := t, pu := some u }
+                | .float fx => some { text := t, pf := .ok fx }
+                | _ => some { text := t })
+             else none
+         let oracle (t : Bytes) : Seg :=
+           match gs.findSome? (fun g => g.key.filter (·.text == t)) with
+           | some s => s
+           | none => (synth t).getD { text := t }
+         if rootOf f == .ok && !LoopKeysOK oracle ftextH sc n v p then "dev-ok hypothesis LoopKeysOK of loop_correct does not hold for this record" else
          let implStrs := gs.map showObsGroup
          let canonL (l : List String) : List String := if isMap then l.toArray.qsort (· < ·) |>.toList else l
          let impl : LoopObs := { groups := canonL implStrs, fin := fin }
@@ -639,6 +670,8 @@ def opAlias (st : St) (head pathToks aliasToks allocToks : List String) : String
      | some n, some v, some (p, _) =>
        if p.any (fun s => s.pf == .inexact) then "skip inexact-key" else
        let cls := inAliasClass n v p
+       -- hypothesis of C15.alias_live, evaluated on every record of the class
+       if cls && !AliasOK n then "dev-ok hypothesis AliasOK of alias_live does not hold for this type tree" else
        let model : String := match getM st.cfg n .ptr v p with
          | .panic => "panic"
          | .err => "err"
